@@ -194,7 +194,8 @@ def gen_case(seed, tier):
     # (b) otherwise the primitive, with plain or value-castable (enum / struct) signals, must at least elaborate down to the netlist
     if kind in ("ff", "pulse") and fl.random() < 0.3:
         config["platform"] = fl.choice(["xc7", "xc6s", "xc3s"])
-    config["vendor"] = {"platform": fl.choice(vendors.NAMES), "castable": fl.choice([None, None, "enum", "struct"])}
+    config["vendor"] = {"platform": fl.choice(vendors.NAMES), "castable": fl.choice([None, None, "enum", "struct"]),
+                        "default_init": fl.random() < 0.3}         # (no init= given: the stages start at the shape's default)
     if kind in ("async", "reset") and not config.get("shadow_neg"):
         names = [n_ for n_ in ("async_ff", "reset_sync", "src") if n_ != config.get("o_name")]
         config["i_reset_of"] = fl.choice([None, None] + names)
@@ -334,7 +335,11 @@ def vendor_ridealong(config, P):
         else:
             i, o = Signal(w, name="i"), Signal(w, name="o")
             init = config["init"] & ((1 << w) - 1)
-        m.submodules.dut = cdc.FFSynchronizer(i, o, o_domain="o", stages=stages, init=init, reset_less=config["reset_less"])
+        if vb.get("default_init"):
+            m.submodules.dut = cdc.FFSynchronizer(i, o, o_domain="o", stages=stages, reset_less=config["reset_less"])
+            P["vendor_default_init"] = 1
+        else:
+            m.submodules.dut = cdc.FFSynchronizer(i, o, o_domain="o", stages=stages, init=init, reset_less=config["reset_less"])
         ports = [i, o]
     elif kind == "async":
         i, o = Signal(name="i"), Signal(name="o")
